@@ -305,10 +305,16 @@ def task(arg):
                     frames.append((digest(atoms_snapshot(sim.atoms)), tuple((str(a), b) for a, b in sim.move_history)))
                 reps.append(frames)
                 sim.close()
+                if _k == 0:
+                    # the simulation the dictionary was taken from moves on before the second replica is built:
+                    # the dictionary is a checkpoint and must not follow it
+                    for step in sysm.mc.irun(3):
+                        for _ in step:
+                            pass
             sysm.close()
             if reps[0] != reps[1]:
                 k = next(i for i, (x, y) in enumerate(zip(reps[0], reps[1])) if x != y)
-                V(f"C06/{name}/two-replicas-from-one-dictionary/trajectories-differ", f"two simulations rebuilt from the same to_dict() dictionary differ from step {k + 1}; {name} table {cfg.get('table', '')}")
+                V(f"C06/{name}/two-replicas-from-one-dictionary/trajectories-differ", f"two simulations rebuilt from the same to_dict() dictionary (the second one after the original simulation had run 3 more steps) differ from step {k + 1}; {name} table {cfg.get('table', '')}")
         except Exception as e:  # noqa: BLE001
             V(f"C06/{name}/two-replicas-from-one-dictionary/exception:{type(e).__name__}", f"{e}"[:250])
     for h in sorted(set(mon.hits)):
